@@ -664,6 +664,9 @@ func c01Spec(v *verifOut, cons string, n int, idx int) wSpec {
 	if rng.Intn(3) == 0 {
 		spec.fetchFail = 0.15 * float64(1+rng.Intn(3)) // flaky block fetches
 	}
+	if rng.Intn(4) == 0 {
+		spec.sendFail = 0.1 * float64(1+rng.Intn(3)) // Vote / NewView report send errors (delivered or not)
+	}
 	return spec
 }
 
@@ -691,7 +694,7 @@ func TestVerifC01(t *testing.T) {
 		for k := range reps {
 			reps[k] = hotstuff.ID(k + 1)
 		}
-		meta := map[string]any{"consensus": cons, "n": n, "byz": spec.byz, "twins": spec.twins, "world_seed": spec.seed, "script": tag, "crypto": spec.crypto, "fetch_fail": spec.fetchFail,
+		meta := map[string]any{"consensus": cons, "n": n, "byz": spec.byz, "twins": spec.twins, "world_seed": spec.seed, "script": tag, "crypto": spec.crypto, "fetch_fail": spec.fetchFail, "send_fail": spec.sendFail,
 			"events": len(h.events), "commits": res.commits, "drop": spec.dropProb, "dup": spec.dupProb, "withhold": spec.withhold, "trace": h.evDesc}
 		nontrivial := h.votes >= 4 && h.commits >= 1
 		key := fmt.Sprintf("%s/%d/%v/%v/%s", cons, n, spec.byz, spec.twins, strings.Join(h.events, ";"))
